@@ -109,6 +109,20 @@ def generate(ctx):
         if offs["issue"] is None:
             offs["issue"] = 0
         cases.append(mk(offs, skew, rng.choice([None, None, "5", "123456"]), "random"))
+    # the process time zone must not matter: the same sweeps in a zone east and a zone west of UTC
+    # (POSIX TZ strings, no tzdata needed); the model has no such input
+    tzs = ["JST-9", "EST5", "NST3:30", "LINT-14"]
+    for i, tz in enumerate(tzs if ctx.thorough else tzs[:2]):
+        for skew in (None, 60):
+            for f in FIELDS:
+                for o in offsets(skew):
+                    if (f == "issue" and o is None) or (not ctx.thorough and rng.random() > 0.55):
+                        continue
+                    offs = dict(BASE)
+                    offs[f] = o
+                    c = mk(offs, skew, None, "tz:" + tz)
+                    c["tz"] = tz
+                    cases.append(c)
     cases += text_cases(ctx)
     return cases
 
@@ -212,6 +226,20 @@ def observe_text(case):
 def observe(case):
     if "text" in case:
         return observe_text(case)
+    if case.get("tz"):
+        import os
+        import time as _t
+        old = os.environ.get("TZ")
+        os.environ["TZ"] = case["tz"]
+        _t.tzset()
+        try:
+            return observe(dict(case, tz=None))
+        finally:
+            if old is None:
+                os.environ.pop("TZ", None)
+            else:
+                os.environ["TZ"] = old
+            _t.tzset()
     over = {}
     if case["skew"] is not None:
         over["accepted_time_diff"] = case["skew"]
@@ -271,7 +299,7 @@ def nontrivial(case, obs):
     moved = tuple((f, case[f]) for f in FIELDS if case[f] != BASE[f])
     if not moved:
         return None
-    return (moved, case["skew"], bool(case["frac"]))
+    return (moved, case["skew"], bool(case["frac"]), case.get("tz"))
 
 
 def histogram(cases, observed):
